@@ -599,6 +599,9 @@ func vfJwtTexts(d *vfJwtDesc, ks *vfJwtKeySet, nowSec int64, jti string, hv, pv 
 		pf = append(pf, vfJwtField{"x", strings.Repeat("[", 20000) + strings.Repeat("]", 20000)})
 	case "big1mb":
 		pf = append(pf, vfJwtField{"x", `"` + strings.Repeat("a", 1<<20) + `"`})
+	case "azp-client": // other claims naming the client: none of them stands in for aud
+		pf = append(pf, vfJwtField{"azp", vfJwtJSONStr(vfJwtConfigs[d.Cfg].Client)}, vfJwtField{"client_id", vfJwtJSONStr(vfJwtConfigs[d.Cfg].Client)},
+			vfJwtField{"appid", vfJwtJSONStr(vfJwtConfigs[d.Cfg].Client)})
 	default:
 		panic("bad extra " + d.Extra)
 	}
@@ -1387,6 +1390,9 @@ var vfJwtDevs = func() []vfJwtDev {
 		{"claim-nested-5000-deep", vfJwtSet(extra, "deep5000")}, // acceptable
 		{"claim-nested-20000-deep", vfJwtSet(extra, "deep20000")},
 		{"claim-1mb", vfJwtSet(extra, "big1mb")}, // acceptable
+		{"claim-azp-is-client", vfJwtSet(extra, "azp-client")}, // acceptable on its own; combined with a wrong aud (pairs below) it must not help
+		{"aud-other-but-azp-is-client", func(d *vfJwtDesc, c *vfJwtDevCtx) bool { d.Aud = "s:inventory-api"; d.Extra = "azp-client"; return true }},
+		{"aud-array-not-containing-but-azp-is-client", func(d *vfJwtDesc, c *vfJwtDevCtx) bool { d.Aud = "arr-not"; d.Extra = "azp-client"; return true }},
 	}
 }()
 
